@@ -56,6 +56,14 @@ func btoa(b bool) string {
 
 // ---- SignalHandler ----
 
+// refShutdownSignal is the harness's own statement of which signals ask for
+// a shutdown on Unix (SIGINT, SIGQUIT, SIGTERM, as documented for
+// osutil.IsShutdownSignal and registered by osutil's notifier helpers); the
+// library's classifier is code under test and is not consulted by the oracle.
+func refShutdownSignal(sig os.Signal) bool {
+	return sig == os.Signal(syscall.SIGINT) || sig == os.Signal(syscall.SIGQUIT) || sig == os.Signal(syscall.SIGTERM)
+}
+
 type customSignal struct{}
 
 func (customSignal) String() string { return "custom" }
@@ -183,11 +191,23 @@ func runSignal(rc *kernel.RunCtx, k *kernel.Kernel) {
 	preCancelled := tp.Bool(1, 5)
 
 	nt := &notifier{}
-	h := service.NewSignalHandler(&service.SignalHandlerConfig{
+	hconf := &service.SignalHandlerConfig{
 		SignalNotifier:  nt,
 		Logger:          slogutil.NewDiscardLogger(),
 		ShutdownTimeout: timeout,
-	})
+	}
+	h := service.NewSignalHandler(hconf)
+	// The configuration structure is the caller's to reuse once the
+	// constructor has returned.
+	otherNt := &notifier{}
+	if tp.Bool(1, 4) {
+		*hconf = service.SignalHandlerConfig{
+			SignalNotifier:  otherNt,
+			Logger:          slogutil.NewDiscardLogger(),
+			ShutdownTimeout: timeout/2 + time.Nanosecond,
+		}
+		rc.Stats.Probe("config-structure-reused-after-construction")
+	}
 	if nt.ch == nil {
 		rc.Fail("no-notify", "NewSignalHandler", "the handler did not register with the signal notifier")
 
@@ -248,7 +268,7 @@ func runSignal(rc *kernel.RunCtx, k *kernel.Kernel) {
 	var queue []os.Signal
 	queueHasShutdown := func() bool {
 		for _, sig := range queue {
-			if osutil.IsShutdownSignal(sig) {
+			if refShutdownSignal(sig) {
 				return true
 			}
 		}
@@ -331,7 +351,7 @@ func runSignal(rc *kernel.RunCtx, k *kernel.Kernel) {
 	}
 	k.Go("signals", true, func() {
 		deliver := func(sig os.Signal) bool {
-			shutdown := osutil.IsShutdownSignal(sig)
+			shutdown := refShutdownSignal(sig)
 			k.Yield("signal.next")
 			if faithful && !slices.Contains(regSigs, sig) {
 				return false
@@ -436,7 +456,7 @@ func runSignal(rc *kernel.RunCtx, k *kernel.Kernel) {
 		case justReturned:
 			checkRound()
 			for i, sig := range queue {
-				if osutil.IsShutdownSignal(sig) {
+				if refShutdownSignal(sig) {
 					queue = append([]os.Signal(nil), queue[i+1:]...)
 
 					break
@@ -558,6 +578,34 @@ type refreshSim struct {
 }
 
 func (s *refreshSim) fail(class, msg string) { s.k.Fail(class, "RefreshWorker", msg) }
+
+// foreign stands for the parts of another worker's configuration, written
+// into the caller's configuration structure after this worker has been
+// constructed.  Any use is a violation; it then behaves like the real part so
+// that the run ends in the ordinary way.
+type foreign struct {
+	s    *refreshSim
+	what string
+}
+
+func (f foreign) trip() {
+	f.s.k.Tell("foreign."+f.what, func() {
+		f.s.fail("foreign-config-used", "the worker used the "+f.what+" that was written into the caller's configuration structure after NewRefreshWorker had returned")
+	})
+}
+func (f foreign) Now() time.Time                         { f.trip(); return simClock{f.s}.Now() }
+func (f foreign) After(d time.Duration) <-chan time.Time { f.trip(); return simClock{f.s}.After(d) }
+func (f foreign) UntilNext(now time.Time) time.Duration {
+	f.trip()
+	return simSchedule{f.s}.UntilNext(now)
+}
+func (f foreign) Refresh(ctx context.Context) error     { f.trip(); return nil }
+func (f foreign) Handle(ctx context.Context, err error) { f.trip() }
+func (f foreign) New(parent context.Context) (context.Context, context.CancelFunc) {
+	f.trip()
+
+	return simCons{f.s}.New(parent)
+}
 
 func (s *refreshSim) isLoop() bool {
 	t := s.k.LastRun()
@@ -864,14 +912,30 @@ func runRefresh(rc *kernel.RunCtx, k *kernel.Kernel) {
 	}
 	k.Logf("refresh: onShutdown=", btoa(s.onShutdown), " ticks=", kernel.Itoa(maxTicks), " shutdownAfter=", kernel.Itoa(shutdownAfter))
 
-	w := service.NewRefreshWorker(&service.RefreshWorkerConfig{
+	conf := &service.RefreshWorkerConfig{
 		Clock:              simClock{s},
 		ContextConstructor: simCons{s},
 		ErrorHandler:       simErrHandler{s},
 		Refresher:          simRefresher{s},
 		Schedule:           simSchedule{s},
 		RefreshOnShutdown:  s.onShutdown,
-	})
+	}
+	w := service.NewRefreshWorker(conf)
+	// The caller's configuration structure is the caller's: some runs fill it
+	// with the parts of another worker once the constructor has returned (one
+	// structure reused for several workers).  The parts of that other worker
+	// must never be used by this one.
+	if tp.Bool(1, 4) {
+		*conf = service.RefreshWorkerConfig{
+			Clock:              foreign{s, "Clock"},
+			ContextConstructor: foreign{s, "ContextConstructor"},
+			ErrorHandler:       foreign{s, "ErrorHandler"},
+			Refresher:          foreign{s, "Refresher"},
+			Schedule:           foreign{s, "Schedule"},
+			RefreshOnShutdown:  !s.onShutdown,
+		}
+		rc.Stats.Probe("config-structure-reused-after-construction")
+	}
 
 	fired := 0
 	shutdownRequested := false
